@@ -73,6 +73,11 @@ META["C09"] = {
   "design_ref": "DESIGN.md §3 C09",
   "note": "Level `other`: a relational lockstep proof was not built; the deductive part is the frame + functional characterisation.",
   "technique": TECH}
+META["C20"] = {
+  "text": "confusion_matrix, opf_accuracy, opf_accuracy_per_label and purity are under contract with recursive spec counters (pairs, false positives, false negatives, class sizes); loop invariants equate the accumulators with the counters, the vector statements go through assumed numpy contracts, and two counting lemmas (by induction on the prefix length) give the bounds: the accuracy formula, its range [0, 1] and 'equals 1 iff all predictions are correct' are discharged for every K >= 2 and every length; recall and the purity formula for every K. normalize is a static shape obligation. The remaining clauses (K = 1, purity bounds / iff, numeric normalize) are bounded run-time contracts against brute-force definitions.",
+  "design_ref": "DESIGN.md §3 C20",
+  "note": "Level `other` because part of the statement is bounded; numpy reductions by assumed contracts (listed).",
+  "technique": TECH}
 ALL = ["C%02d" % i for i in range(1, 21)]
 NOT_APPLICABLE = []
 def _na():
